@@ -185,6 +185,7 @@ def rand_zone(r, idx):
 # footers on which earlier probing found the library wrong (kept in every run so that the
 # behaviour class is always exercised): rule times that cross a year boundary
 SPECIAL_FOOTERS = [b"AAA5BBB,M3.2.0,J338/11:30", b"AAA5BBB,J338/10:30,M12.5.0",      # a change within seconds of time_point::max()
+                   b"AAA5BBB,J338/11,M12.5.0", b"AAA5BBB,M3.2.0,J338/12",            # a gap / an overlap whose change lies just beyond max()
                    b"AAA5BBB,0/-1,J300/0", b"AAA5BBB,J1/-167,J200", b"AAA-3BBB,M1.1.1/-167,M7.1.0",
                    b"AAA5BBB,M3.2.0,365/25", b"AAA5BBB,J60,J300", b"AAA5BBB,59,J300/26:30"]
 
